@@ -63,6 +63,7 @@ func TestC14_Tx(t *testing.T) {
 	decodeLocs := gen.DecodeLocations()
 	rapid.Check(t, func(t *rapid.T) {
 		c := newCtx(t, "tx")
+		defer codePanic(c)
 		g := &gen.Tags{}
 		loc := gen.Location(t, "loc")
 		var x *types.Transaction
@@ -214,35 +215,38 @@ func rlpPath(c *ctx, g *gen.Tags, x, y *types.Transaction, kind string, compress
 			c.fail("C14/tx/rlp-after-proto/"+kind, "typed RLP encoding changed over the proto round trip: %x -> %x (%v)", rb1, rby, err)
 		}
 	}
-	workLoss := (kind == "qi" || kind == "quai") && !g.Has(kind+":work_absent")
-	z := new(types.Transaction)
-	if err := z.UnmarshalBinary(rb1); err != nil {
-		fp := "C14/tx/rlp/decode-error/" + kind
-		if kind == "quai" && !g.Has("quai:work_present") {
-			fp = "C14/tx/rlp/decode-error/quai/nil-work-field"
+	// known input classes of the decode direction are excluded exactly (see findings_test.go)
+	switch {
+	case quaiNilWorkField(x) && known(fpQuaiRlpNilWork):
+		g.Add("rlp_decode_excluded")
+	case qiWithWorkField(x) && known(fpQiRlpWorkDropped):
+		g.Add("rlp_decode_excluded")
+	default:
+		z := new(types.Transaction)
+		if err := z.UnmarshalBinary(rb1); err != nil {
+			fp := "C14/tx/rlp/decode-error/" + kind
+			if quaiNilWorkField(x) {
+				fp = fpQuaiRlpNilWork
+			}
+			c.fail(fp, "UnmarshalBinary(MarshalBinary(x)) failed: %v (rlp %x)", err, rb1)
+			break
 		}
-		c.fail(fp, "UnmarshalBinary(MarshalBinary(x)) failed: %v (rlp %x)", err, rb1)
-		return
-	}
-	g.Add("rlp_decoded")
-	d := &diff{}
-	diffTx(d, "", x, z, false)
-	if !d.ok() {
-		fp := "C14/tx/rlp/accessors/" + kind
-		if workLoss && kind == "qi" {
-			fp = "C14/tx/rlp/qi-work-fields-dropped"
+		g.Add("rlp_decoded")
+		d := &diff{}
+		diffTx(d, "", x, z, false)
+		hz := z.Hash()
+		if !d.ok() || hz != hx0 {
+			fp := "C14/tx/rlp/accessors/" + kind
+			if qiWithWorkField(x) {
+				fp = fpQiRlpWorkDropped
+			} else if d.ok() {
+				fp = "C14/tx/rlp/hash/" + kind
+			}
+			c.fail(fp, "RLP decode(encode(x)) differs from x: %s; hash %x -> %x", d, hx0, hz)
 		}
-		c.fail(fp, "RLP decode(encode(x)) differs from x: %s", d)
-	}
-	if rb2, _ := z.MarshalBinary(); !bytes.Equal(rb1, rb2) {
-		c.fail("C14/tx/rlp/reencode/"+kind, "RLP re-encoding differs: %x vs %x", rb2, rb1)
-	}
-	if hz := z.Hash(); hz != hx0 {
-		fp := "C14/tx/rlp/hash/" + kind
-		if workLoss && kind == "qi" {
-			fp = "C14/tx/rlp/qi-work-fields-dropped"
+		if rb2, _ := z.MarshalBinary(); !bytes.Equal(rb1, rb2) {
+			c.fail("C14/tx/rlp/reencode/"+kind, "RLP re-encoding differs: %x vs %x", rb2, rb1)
 		}
-		c.fail(fp, "hash changed over the RLP round trip: %x -> %x", hx0, hz)
 	}
 	// rlp.EncodeToBytes / DecodeBytes as the state's ETX queue does (PushETX / PopETX)
 	if x.Type() == types.ExternalTxType {
@@ -266,13 +270,19 @@ func rlpPath(c *ctx, g *gen.Tags, x, y *types.Transaction, kind string, compress
 			c.fail("C14/tx/rlp/etx-queue-accessors", "ETX differs after the queue round trip: %s", d)
 		}
 		addressTyping(c, "etx-queue.to", *q.To(), dloc)
-		if sx, sq := x.Size(), q.Size(); sx != sq {
-			c.fail("C14/tx/rlp/size-cache", "Size() of an RLP-decoded tx is %v, of the original %v", sq, sx)
+		if !known(fpRlpSizeCache) {
+			if sx, sq := x.Size(), q.Size(); sx != sq {
+				c.fail(fpRlpSizeCache, "Size() of an RLP-decoded tx is %v, of the original %v", sq, sx)
+			}
 		}
 	}
 }
 
 func jsonPathTx(c *ctx, g *gen.Tags, x *types.Transaction, kind string, compressed bool, hx0 common.Hash) {
+	if (quaiNonZeroWorkNonce(x) && known(fpQuaiJsonWorkNonce)) || (qiWithWorkField(x) && known(fpQiJsonWorkDropped)) {
+		g.Add("json_excluded")
+		return
+	}
 	jb, err := x.MarshalJSON()
 	if err != nil {
 		c.fail("C14/tx/json/encode-error/"+kind, "MarshalJSON failed: %v", err)
@@ -286,10 +296,10 @@ func jsonPathTx(c *ctx, g *gen.Tags, x *types.Transaction, kind string, compress
 	if err := z.UnmarshalJSON(jb); err != nil {
 		fp := "C14/tx/json/decode-error/" + kind
 		switch {
-		case kind == "quai" && x.WorkNonce() != nil && x.WorkNonce().Uint64() != 0:
-			fp = "C14/tx/json/quai-work-nonce-truncated"
-		case kind == "qi" && !g.Has("qi:work_absent"):
-			fp = "C14/tx/json/qi-work-fields-dropped"
+		case quaiNonZeroWorkNonce(x):
+			fp = fpQuaiJsonWorkNonce
+		case qiWithWorkField(x):
+			fp = fpQiJsonWorkDropped
 		}
 		c.fail(fp, "UnmarshalJSON(MarshalJSON(x)) failed: %v (json %s)", err, jb)
 		return
